@@ -6,7 +6,7 @@ import time
 
 from hypothesis import strategies as st
 
-from .. import core
+from .. import core, fuzz
 from .. import noderun as N
 from .. import wasmgen as G
 from .. import wasmref as R
@@ -202,6 +202,8 @@ def check_case(case):
 
 
 def replay(case):
+    if fuzz.is_case(case):
+        return fuzz.replay_case(case, fuzz_binary)
     try:
         return check_case(case)
     finally:
@@ -298,8 +300,8 @@ def _kf3_model(desc, mode):
 
 def classify(case, msg):
     h = parse_message(msg)
-    if h is None:
-        return None
+    if h is None or fuzz.is_case(case):
+        return None  # (no open finding touches what the fuzz layer checks: re-encoding idempotence of arbitrary valid binaries)
     desc = case["desc"]
     step = h.get("step")
     v = case.get("wat", {})
@@ -387,3 +389,124 @@ def run(ctx):
     sizes = dict(max_funcs=ctx.scale(4, 5), fuel=ctx.scale(40, 60), depth=ctx.scale(5, 6), budget_s=ctx.scale(60, 1500), shrink_s=ctx.scale(30, 240))
     n = ctx.scale(256, 32000)
     ctx.pmap(_worker, [(subseed(ctx.seed, PID, w), n // 16, open_ids, sizes) for w in range(16)])
+    if not ctx.quick:
+        fuzz_layer(ctx, open_ids)
+
+
+# ---------------------------------------------------------------------------
+# coverage-guided fuzzing of the binary reader (thorough tier only; driver: vf/fuzz.py)
+
+FUZZ_TARGET = "C21.binary"
+FUZZ_RUNS = 100000
+
+
+def v8_valid(data):
+    """Does V8 accept the bytes as a WebAssembly module?  None when node cannot be asked."""
+    import subprocess
+    import tempfile
+
+    try:
+        nodebin = N.find_node()
+    except N.NodeError:
+        return None
+    with tempfile.NamedTemporaryFile(prefix="vf-c21-fuzz-", suffix=".wasm") as f:
+        f.write(data)
+        f.flush()
+        js = "process.exit(WebAssembly.validate(require('fs').readFileSync(process.argv[1])) ? 0 : 3)"
+        try:
+            p = subprocess.run([nodebin, "--no-warnings", "-e", js, f.name], capture_output=True, timeout=120)
+        except (OSError, subprocess.TimeoutExpired):
+            return None
+    return {0: True, 3: False}.get(p.returncode)
+
+
+def fuzz_binary(data):
+    """One fuzz input = bytes of a would-be wasm binary.  Returns an outcome label; raises fuzz.Failure on a C21 violation.
+
+    The reader may reject an input with any exception (counted by type).  If it accepts:  w1 = Module(data).to_bytes(),
+    w2 = Module(w1).to_bytes() must exist and be equal (idempotence of read-write, demanded for every valid encoding), and
+    when to_string() succeeds Module(text).to_bytes() == w1.  C21 quantifies over VALID modules: a discrepancy counts only
+    when V8 validates the input (asked on discrepancies only)."""
+    import logging
+
+    from ppci.wasm import Module
+
+    logging.disable(logging.CRITICAL)
+    try:
+        m = Module(bytes(data))
+    except (RecursionError, MemoryError) as e:
+        return "rejected:resource:" + type(e).__name__
+    except Exception as e:
+        return "rejected:" + type(e).__name__
+    step = detail = bucket = None
+    w1 = None
+    try:
+        w1 = m.to_bytes()
+    except (RecursionError, MemoryError) as e:
+        return "accepted:resource:" + type(e).__name__
+    except Exception as e:
+        step, detail, bucket = "f1", "Module(input).to_bytes() raised %s: %s" % (type(e).__name__, e), "to_bytes:" + fuzz.exc_bucket(e)
+    if step is None:
+        try:
+            w2 = Module(w1).to_bytes()
+            if w2 != w1:
+                step, detail, bucket = "f2", "w(r(w(r(input)))) != w(r(input)); " + _ctx(w1, w2), "not-idempotent"
+        except (RecursionError, MemoryError) as e:
+            return "accepted:resource:" + type(e).__name__
+        except Exception as e:
+            step, detail, bucket = "f2", "re-reading ppci's own output raised %s: %s" % (type(e).__name__, e), "reread:" + fuzz.exc_bucket(e)
+    label = "accepted:idempotent"
+    if step is None:
+        try:
+            txt = m.to_string()
+        except (RecursionError, MemoryError) as e:
+            return "accepted:resource:" + type(e).__name__
+        except Exception as e:
+            txt = None
+            label = "accepted:idempotent:to_string raised " + type(e).__name__
+        if txt is not None:
+            try:
+                w3 = Module(txt).to_bytes()
+                if w3 != w1:
+                    step, detail, bucket = "f3", "Module(Module(input).to_string()).to_bytes() != Module(input).to_bytes(); " + _ctx(w1, w3) + "\n" + txt[:800], "text-round-trip-differs"
+                else:
+                    label = "accepted:idempotent+text-round-trip"
+            except (RecursionError, MemoryError) as e:
+                return "accepted:resource:" + type(e).__name__
+            except Exception as e:
+                step, detail, bucket = "f3", "parsing Module(input).to_string() raised %s: %s\n%s" % (type(e).__name__, e, txt[:800]), "text:" + fuzz.exc_bucket(e)
+    if step is None:
+        return label
+    valid = v8_valid(bytes(data))
+    if valid is None:
+        return "discrepancy(%s):V8 not available" % bucket
+    if not valid:
+        return "discrepancy on an input V8 rejects:" + bucket
+    raise fuzz.Failure("C21 " + json.dumps({"step": step, "fuzz": True}) + "\nstep (%s) on a fuzzed binary that V8 validates: %s\ninput %s"
+                       % (step, detail, bytes(data).hex()[:1200]), bucket)  # fmt: skip
+
+
+def fuzz_seeds(seed, open_ids=()):
+    """reference binaries of ~30 generated modules"""
+    flags, _ = flags_for(set(open_ids))
+    seeds = []
+    for c in fuzz.collect(G.cases(flags, max_funcs=2, fuel=16, depth=3), 80, subseed(seed, PID, "fuzz-seeds")):
+        b = R.encode(c["desc"])
+        if len(b) <= fuzz.MAX_LEN and b not in seeds:
+            seeds.append(b)
+        if len(seeds) >= 30:
+            break
+    return seeds
+
+
+def fuzz_layer(ctx, open_ids):
+    try:
+        info = {}
+        fails = fuzz.campaign(FUZZ_TARGET, fuzz_binary, fuzz_seeds(ctx.seed, open_ids), fuzz.runs(FUZZ_RUNS), subseed(ctx.seed, PID, "fuzz"),
+                              ctx.tmpdir(), info=info)  # fmt: skip
+    except ImportError:
+        ctx.stats.notes.append("atheris unavailable")
+        return
+    ctx.extra["fuzz"] = info
+    for data, msg in fails:
+        ctx.fail(fuzz.case(FUZZ_TARGET, data), msg)
